@@ -135,13 +135,28 @@ def check_stream(res, stream):
     return "ok:" + str(val)
 
 
+_SUBS = {}
+
+
+def spell(cls, as_int, *args):
+    """The destination in the spelling asked for: the library's address object, a plain integer (as_int=True, short
+    addresses only) or an instance of an application subclass of the address class (as_int="sub")."""
+    if as_int is True:
+        return args[0]
+    if as_int == "sub":
+        if cls not in _SUBS:
+            _SUBS[cls] = type("Labelled" + cls.__name__, (cls,), {"label": "luminaire"})
+        return _SUBS[cls](*args)
+    return cls(*args)
+
+
 def check_dt_list(res, types, sa=3, as_int=False):
     from dali.sequences import QueryDeviceTypes
     from dali.address import GearShort
     unit = G.Gear(short=sa, devicetypes=types)
     other = G.Gear(short=(sa + 1) % 64, devicetypes=[2, 3])
     bus = G.Bus([unit, other])
-    kind, val, n = G.run_sequence(QueryDeviceTypes(sa if as_int else GearShort(sa)), bus, CAP)
+    kind, val, n = G.run_sequence(QueryDeviceTypes(spell(GearShort, as_int, sa)), bus, CAP)
     res["transitions"] += n
     if kind != "return" or val != sorted(types):
         add_violation(res, "C08:QueryDeviceTypes:conforming-unit", f"unit {sa} (int form: {as_int}) with device types {types}: {kind} {val!r}",
@@ -166,7 +181,7 @@ def check_qgroups(res, mask, fault=None, sa=7, as_int=False):
             if i == fault[0]:
                 return None if fault[1] == "none" else F.BackwardFrameError(fr.as_integer if fr else 0)
             return fr
-    kind, val, n = G.run_sequence(QueryGroups(sa if as_int else GearShort(sa)), bus, CAP, fl)
+    kind, val, n = G.run_sequence(QueryGroups(spell(GearShort, as_int, sa)), bus, CAP, fl)
     res["transitions"] += n
     case = {"t": "qgroups", "mask": mask, "fault": fault, "sa": sa, "as_int": as_int}
     if fault:
@@ -183,14 +198,14 @@ def check_setgroups(res, dest, emask, rmask, fault=None, sa=5, GSEL=3):
     from dali import frame as F
     existing, requested = groups_of(emask), groups_of(rmask)
     case = {"t": "setgroups", "dest": dest, "e": emask, "r": rmask, "fault": fault, "sa": sa, "gsel": GSEL}
-    if dest in ("short", "int"):
+    if dest in ("short", "int", "short-sub"):
         target = [G.Gear(short=sa, groups=existing)]
         others = [G.Gear(short=(sa + 1) % 64, groups={1, 9})]
-        addr = GearShort(sa) if dest == "short" else sa
-    elif dest == "group":
+        addr = spell(GearShort, {"short": False, "int": True}.get(dest, "sub"), sa)
+    elif dest in ("group", "group-sub"):
         target = [G.Gear(short=sa, groups=existing | {GSEL}), G.Gear(short=(sa + 4) % 64, groups={GSEL, 15} | ({14} if GSEL == 15 else set()))]
         others = [G.Gear(short=(sa + 1) % 64, groups={1, 9} - {GSEL})]
-        addr = GearGroup(GSEL)
+        addr = spell(GearGroup, "sub" if dest == "group-sub" else False, GSEL)
     elif dest == "unaddressed":
         # all gear WITHOUT a short address: several such units, each with another membership, answer queries together
         target = [G.Gear(short=None, groups=existing), G.Gear(short=None, groups={0, 7, 8}), G.Gear(short=None, groups=set())]
@@ -199,7 +214,7 @@ def check_setgroups(res, dest, emask, rmask, fault=None, sa=5, GSEL=3):
     else:
         target = [G.Gear(short=sa, groups=existing), G.Gear(short=None, groups={0, 7, 8})]
         others = []
-        addr = GearBroadcast()
+        addr = spell(GearBroadcast, "sub" if dest == "broadcast-sub" else False)
     bus = G.Bus(target + others)
     before_others = [set(o.groups) for o in others]
     fl = None
@@ -227,7 +242,7 @@ def check_setgroups(res, dest, emask, rmask, fault=None, sa=5, GSEL=3):
     for o, b in zip(others, before_others):
         if o.groups != b:
             add_violation(res, f"C08:SetGroups:bystander-changed:{dest}", f"{case}: unaddressed unit changed", case)
-    if dest in ("short", "int"):
+    if dest in ("short", "int", "short-sub"):
         changes = [(d[1], d[2][1]) for d, a in bus.log if d[1] in ("AddToGroup", "RemoveFromGroup")]
         exp = {("AddToGroup", g) for g in requested - existing} | {("RemoveFromGroup", g) for g in existing - requested}
         if set(changes) != exp or len(changes) != len(exp):
@@ -409,7 +424,9 @@ def run_shard(shard):
         # sequences must not depend on WHICH unit is addressed (boundary addresses 0 and 63 included)
         pairs = ((0, 0xFFFF), (0xFFFF, 0), (0x0206, 0x020C), (0x8001, 0x8001), (0, 0), (0x00FF, 0xFF00), (0x5555, 0xAAAA), (1, 0x8000))
         for sa in range(shard[1], shard[2]):
-            for as_int in (False, True):
+            for as_int in (False, True, "sub"):
+                if as_int == "sub" and sa % 16 not in (0, 5, 15):
+                    continue
                 for types in ([], [6], [4, 6, 8], [0], [1, 2, 3, 4, 5]):
                     check_dt_list(res, types, sa, as_int)
                 for mask in (0, 0xFFFF, 0xA5C3, 0x0001, 0x8000):
@@ -417,7 +434,7 @@ def run_shard(shard):
                 for pos in (0, 1):
                     for f in ("none", "err"):
                         check_qgroups(res, 0xA5C3, (pos, f), sa, as_int)
-                dest = "int" if as_int else "short"
+                dest = {False: "short", True: "int", "sub": "short-sub"}[as_int]
                 for e, r in pairs:
                     check_setgroups(res, dest, e, r, None, sa)
                     res["evaluations"] += 1
@@ -432,6 +449,11 @@ def run_shard(shard):
             for e, r in pairs:
                 check_setgroups(res, "broadcast", e, r, None, sa)
                 res["evaluations"] += 1
+            if sa % 16 in (0, 5, 15):
+                for e, r in pairs:
+                    check_setgroups(res, "broadcast-sub", e, r, None, sa)
+                    check_setgroups(res, "group-sub", e, r, None, sa, sa % 16)
+                    res["evaluations"] += 2
         res["states"] += res["evaluations"]
         res["distinct"].add(("addr_sweep", shard[1]))
         sample(res, {"address_sweep": [shard[1], shard[2] - 1], "forms": ["GearShort", "int"], "group_selectors": 16})
